@@ -135,6 +135,49 @@ class CallRedirect(ast.NodeTransformer):
     visit_AsyncFunctionDef = visit_FunctionDef
 
 
+class StarDisplay(ast.NodeTransformer):
+    """P4: a list/tuple display with starred elements, `[a, *b, c]`, becomes
+    `__vc_cat__("list", [a], b, [c])`: the same concatenation in the same order (CPython builds the display by
+    iterating each starred operand once, left to right); on a symbolic-length operand it is sequence
+    concatenation.  Displays without a star are left alone."""
+
+    def _rewrite(self, node, kind):
+        self.generic_visit(node)
+        if not isinstance(node.ctx, ast.Load) or not any(isinstance(e, ast.Starred) for e in node.elts):
+            return node
+        parts, run = [], []
+        for e in node.elts:
+            if isinstance(e, ast.Starred):
+                if run:
+                    parts.append(ast.List(elts=run, ctx=ast.Load()))
+                    run = []
+                parts.append(ast.Call(func=ast.Name(id="__vc_star__", ctx=ast.Load()), args=[e.value], keywords=[]))
+            else:
+                run.append(e)
+        if run:
+            parts.append(ast.List(elts=run, ctx=ast.Load()))
+        new = ast.Call(func=ast.Name(id="__vc_cat__", ctx=ast.Load()), args=[ast.Constant(kind)] + parts, keywords=[])
+        return ast.copy_location(new, node)
+
+    def visit_List(self, node):
+        return self._rewrite(node, "list")
+
+    def visit_Tuple(self, node):
+        return self._rewrite(node, "tuple")
+
+    # annotations / subscripts such as Tuple[int, *Ts] are not value displays
+    def visit_arg(self, node):
+        return node
+
+    def visit_Subscript(self, node):
+        node.value = self.visit(node.value)
+        if not isinstance(node.slice, ast.Tuple):
+            node.slice = self.visit(node.slice)
+        else:
+            node.slice.elts = [self.visit(e) if not isinstance(e, ast.Starred) else e for e in node.slice.elts]
+        return node
+
+
 _MUTATORS = {"append", "extend", "insert", "pop", "remove", "clear", "sort", "reverse", "update", "add", "discard", "setdefault", "popitem", "appendleft"}
 
 
@@ -368,6 +411,7 @@ def transform(source: str, modname: str, filename: str):
     tree = ast.parse(source, filename)
     IDENTITY_FLAGS[modname] = identity_flags(tree)
     tree = CallRedirect().visit(tree)
+    tree = StarDisplay().visit(tree)
     li = LoopInstrumenter(modname)
     tree = li.visit(tree)
     INSTRUMENTED_LOOPS.update(li.done)
